@@ -78,7 +78,7 @@ type weighted struct {
 var opWeights = []weighted{
 	{"w.put", 7}, {"w.putnew", 2}, {"w.putmany", 1}, {"w.secret", 2}, {"w.crown", 2}, {"w.insertm", 3}, {"w.delete", 2},
 	{"r.get", 7}, {"r.exists", 2}, {"r.query", 4}, {"r.sub", 2}, {"r.clearcache", 1}, {"r.insert", 3}, {"r.setabs", 1},
-	{"r.setrel", 1}, {"r.secret", 1}, {"r.crown", 1}, {"r.delete", 2}, {"r.put", 2}, {"r.putnew", 1}, {"r.putmany", 1}, {"r.purge", 1},
+	{"r.setrel", 1}, {"r.secret", 1}, {"r.crown", 1}, {"r.delete", 2}, {"r.put", 2}, {"r.putnew", 1}, {"r.putmany", 1}, {"r.purge", 1}, {"r.dwput", 2}, {"r.dwflush", 1}, {"r.dwputmany", 1},
 	{"api.get", 3}, {"api.query", 2}, {"api.qsub", 1}, {"api.sub", 1}, {"api.create", 1}, {"api.update", 1}, {"api.insert", 1}, {"api.delete", 1},
 }
 
@@ -136,6 +136,23 @@ func genSpec(t *rapid.T, backends []string) caseSpec {
 	// every case starts with a flagged record
 	first := opSpec{Kind: "w.put", Flags: rapid.IntRange(1, 3).Draw(t, "firstflags"), Via: rapid.IntRange(0, 2).Draw(t, "firstvia"), N: 5, T: 1}
 	spec.Ops = append([]opSpec{first}, rapid.SliceOfN(genOp(), 3, 30).Draw(t, "ops")...)
+	// motif: an interface lacking a privilege queues a delayed write for a key while it may, the key then gets a
+	// protected record, the queue is flushed afterwards
+	if rapid.IntRange(0, 3).Draw(t, "dwmotif") == 0 {
+		key := rapid.IntRange(0, 4).Draw(t, "dwkey")
+		reader := rapid.SampledFrom([]int{0, 1, 2}).Draw(t, "dwreader")
+		motif := []opSpec{
+			{Kind: "w.delete", Key: key},
+			{Kind: "r.dwput", Key: key, Reader: reader, N: 3},
+			{Kind: "w.put", Key: key, Flags: rapid.IntRange(1, 3).Draw(t, "dwflags"), N: 4, T: 2},
+			{Kind: "r.dwflush", Reader: reader},
+			{Kind: "r.get", Key: key, Reader: rapid.IntRange(0, 7).Draw(t, "dwafter")},
+		}
+		at := rapid.IntRange(1, len(spec.Ops)).Draw(t, "dwat")
+		ops := append([]opSpec{}, spec.Ops[:at]...)
+		ops = append(ops, motif...)
+		spec.Ops = append(ops, spec.Ops[at:]...)
+	}
 	return spec
 }
 
@@ -170,6 +187,8 @@ var tableReaderPaths = []opSpec{
 	{Kind: "r.put", N: 3},
 	{Kind: "r.putnew", N: 4},
 	{Kind: "r.putmany", N: 5},
+	{Kind: "r.dwputmany", N: 6},
+	{Kind: "r.dwput", N: 7},
 }
 
 var tableAPIPaths = []opSpec{
